@@ -150,6 +150,7 @@ def run_one(prop, hname, tier, seed):
                 panic_paths=st.panic_paths, obligations=st.obligations, discharged=st.discharged, queries=st.queries,
                 solver_s=st.solver_s, steps=st.steps, wall_s=time.time() - t0, bounds=h["bounds"],
                 fns=sorted(st.fns_executed), models=sorted(st.models_used), map_order=eng.map_order,
+                xcheck=dict(checked=st.xchecked, agree=st.xagree, undecided=st.xtimeout, disagree=list(st.xdisagree), not_exportable=getattr(st, "xskipped", 0)),
                 samples=ctx.samples,
                 findings=[dict(prop=f.prop, harness=f.harness, site=f.site, shape=f.shape, detail=f.detail, case=f.case, replayed=f.replayed) for f in ctx.findings])
 
@@ -198,6 +199,11 @@ def run(prop, tier, seed, cov, findings, inconclusive, assumptions, only=None):
         cov["transitions"] += r["decisions"] + r["paths"]
         cov["queries"] += r["queries"]
         cov["solver_s"] += r["solver_s"]
+        xc = r.get("xcheck") or {}
+        cx = cov.setdefault("solver_cross_check", dict(solver="cvc5 (SMT-LIB2 export of the z3 query: path condition + negated obligation)", obligations_rechecked=0, agree=0, undecided=0, not_exportable=0, disagree=[]))
+        cx["obligations_rechecked"] += xc.get("checked", 0); cx["agree"] += xc.get("agree", 0); cx["undecided"] += xc.get("undecided", 0); cx["not_exportable"] += xc.get("not_exportable", 0); cx["disagree"] += xc.get("disagree", [])
+        if xc.get("disagree"):
+            inconclusive.append("M harness %s: z3 and cvc5 disagree on %d obligation(s), e.g. %s" % (r["name"], len(xc["disagree"]), xc["disagree"][0]))
         cov["obligations"] += r["obligations"]
         cov["discharged"] += r["discharged"]
         cov["bounds"].append("%s: %s" % (r["name"], r["bounds"]))
